@@ -113,3 +113,10 @@ func verif_rollback_keeps_store_tx(sqlTx *SQLTx, name string) {
 //@   ensures already_noop: old(sqlTx.tx.closed) ==> sqlTx.txHeader == old(sqlTx.txHeader)
 //@   ensures closed: sqlTx.tx.closed
 //@   ensures same_tx: sqlTx.tx == old(sqlTx.tx)
+
+// Catalog cache coherence (C13: a committed transaction is visible as a whole): every invalidation of the engine-wide
+// cached catalog bumps the cache version, whatever the cache held - the commit-time cache population relies on the
+// version to reject catalogs loaded before a concurrent DDL commit. Typestate level (lite unit).
+//@ func (*Engine).invalidateCatalogCache
+//@   inline
+//@   order version_bumped: e.cachedCatalogVersion.Add before return
